@@ -65,6 +65,9 @@ def gen_bash(rng):
         v = uid(rng)
         return (rng.choice(["echo '%s\n\n%s'" % (u, v), "cat <<EOF\n%s\n\n%s\nEOF" % (u, v)]),
                 '%s\r\n\r\n%s\r\n' % (u, v), 'multiline')
+    if rng.random() < 0.4:
+        # earlier lines are complete and print something, the last one leaves the shell at the continuation prompt
+        return ('echo %s\n%s' % (u, rng.choice(["echo 'unterminated", 'for i in 1; do', 'echo $('])), None, 'incomplete')
     return (rng.choice(['echo "abc', 'for i in 1; do', 'if true; then', "echo 'x", 'echo $(']), None, 'incomplete')
 
 
@@ -99,6 +102,8 @@ def gen_py(rng):
             return ("print('''%s\n\n%s''')" % (u, u[::-1]), '%s\r\n\r\n%s\r\n' % (u, u[::-1]), 'multiline')
         # a block closed by an empty line, then another statement in the same call
         return ("def h%s():\n    return '%s'\n\nprint(h%s())" % (u, u, u), u + '\r\n', 'multiline')
+    if rng.random() < 0.4:
+        return ("print('%s')\n%s" % (u, rng.choice(['if True:', 'for i in range(2):', '(1 +'])), None, 'incomplete')
     return (rng.choice(['for i in range(3):', 'def g():', '(1 +', 'if True:', "'''abc"]), None, 'incomplete')
 
 
